@@ -7,7 +7,7 @@
     name from HISTORY_TABLE (configuration, not command text, search pattern or
     directory name) and numbers (rowid, limit). *)
 From Coq Require Import ZArith.
-From Cicada Require Import Base.Chars Model.History Proofs.HistoryProofs.
+From Cicada Require Import Base.Chars Base.Tag Model.History Proofs.HistoryProofs.
 Local Open Scope N_scope.
 
 (** Injection-freedom of recording, for ALL inputs: the INSERT text is the same
@@ -116,6 +116,51 @@ Theorem C18_record_complete : forall typed t, In t typed -> starts_with_space t 
   In t (session_run idbang [] typed).
 Proof. exact session_complete. Qed.
 
+(** Lines starting with a blank are not recorded -- stated on the TYPED text, for every line
+    including those holding !!, and for EVERY !! expander (the guard of main.rs looks at
+    sh.cmd, not at the line rebuilt by extend_bangbang, which has lost its leading blank):
+    such a line yields no row and leaves previous_cmd alone; deleting all of them from a
+    session does not change what the session records; every recorded text is the
+    expansion of a typed line without leading blank.  Lines with !! that do not start
+    with a blank ARE recorded, as the expanded (rebuilt) text, which is what the code
+    hands to history::add; a line without !!, and any line while previous_cmd is empty,
+    is recorded as typed. *)
+Theorem C18_record_space_led : forall bang prev typed, starts_with_space typed = true ->
+  session_step bang prev typed = (None, prev).
+Proof. exact space_led_step. Qed.
+Theorem C18_record_space_led_run : forall bang typed prev,
+  session_run bang prev typed = session_run bang prev (filter (fun t => negb (starts_with_space t)) typed).
+Proof. exact space_led_run. Qed.
+Theorem C18_record_origin : forall bang typed prev l, In l (session_run bang prev typed) ->
+  exists t p, In t typed /\ starts_with_space t = false /\ l = bang p t.
+Proof. exact recorded_origin. Qed.
+Theorem C18_record_expanded : forall bang prev t, starts_with_space t = false -> trim t <> [] ->
+  bang prev t <> prev -> session_step bang prev t = (Some (bang prev t), bang prev t).
+Proof. exact expanded_recorded. Qed.
+Theorem C18_bang_unchanged : forall tokenize prev line,
+  (has_bb line = false \/ prev = []) -> extend_bangbang tokenize prev line = line.
+Proof. exact bang_unchanged. Qed.
+
+(** Non-vacuity, with a blank-splitting tokenizer and previous_cmd = true a:  the typed line
+    _echo hidden !!  (leading blank) expands to  echo hidden true a  -- no leading blank any
+    more -- and is NOT recorded;  echo  x !!  (two blanks inside) is recorded as  echo x true a. *)
+Fixpoint split_blank (s cur : str) : list (Tag.tag * str) :=
+  match s with
+  | [] => if is_empty cur then [] else [(Tag.TNone, cur)]
+  | c :: r => if c =? 32 then (if is_empty cur then split_blank r [] else (Tag.TNone, cur) :: split_blank r [])
+              else split_blank r (cur ++ [c])
+  end.
+Definition toy_bang := extend_bangbang (fun s => split_blank s []).
+Definition ex_prev : str := [116;114;117;101;32;97].
+Example C18_bang_nonvacuous :
+  toy_bang ex_prev [32;101;99;104;111;32;104;105;100;100;101;110;32;33;33] =
+    [101;99;104;111;32;104;105;100;100;101;110;32;116;114;117;101;32;97] /\
+  session_step toy_bang ex_prev [32;101;99;104;111;32;104;105;100;100;101;110;32;33;33] = (None, ex_prev) /\
+  fst (session_step toy_bang ex_prev [101;99;104;111;32;32;120;32;33;33]) =
+    Some [101;99;104;111;32;120;32;116;114;117;101;32;97] /\
+  session_step toy_bang ex_prev [33;33] = (None, ex_prev).
+Proof. vm_compute. repeat split. Qed.
+
 (** Several shell processes sharing one database.  The initial previous_cmd of a fresh
     process is empty whatever rows are stored (Shell::new; history::init does not touch it):
     what a process records does not depend on the stored rows; in particular the FIRST
@@ -181,6 +226,11 @@ Print Assumptions C18_delete_text.
 Print Assumptions C18_record_rule.
 Print Assumptions C18_record_sound.
 Print Assumptions C18_record_complete.
+Print Assumptions C18_record_space_led.
+Print Assumptions C18_record_space_led_run.
+Print Assumptions C18_record_origin.
+Print Assumptions C18_record_expanded.
+Print Assumptions C18_bang_unchanged.
 Print Assumptions C18_record_independent.
 Print Assumptions C18_record_first.
 Print Assumptions C18_record_processes.
